@@ -120,7 +120,9 @@ def run_impl(lines):
 
 def model_line(l):
     hdr, body = l.split("|", 1)
-    return "5 0 |" + body
+    # op 31 makes a context whose payload reports where it is destroyed: for the model it is op 0
+    ops = [o.split() for o in body.split(";") if o.strip()]
+    return "5 0 | " + " ; ".join(" ".join(["0"] + o[1:] if o[0] == "31" else o) for o in ops)
 
 
 def nontrivial(l):
@@ -147,7 +149,7 @@ def gen_cases(rng, tier):
             choice = r.below(26) if r.chance(1, 2) else 17 + r.below(2) if r.chance(1, 6) else r.below(26)
             pick = lambda k: (r.choice(live(k)) if live(k) and not (wild and r.chance(1, 4)) else r.below(len(kinds) + 2) - 1)
             if choice == 0 or not live("c"):
-                ops.append([0, m]); kinds.append("c"); home[len(kinds) - 1] = m
+                ops.append([31 if r.chance(1, 2) else 0, m]); kinds.append("c"); home[len(kinds) - 1] = m
             elif choice == 1:
                 h = pick("c"); ops.append([1, m, h])
                 if 0 <= h < len(kinds) and kinds[h] == "c":
@@ -233,6 +235,17 @@ def gen_cases(rng, tier):
                 dist["cross_module_uses"] += 1
         dist["ops"] += len(ops)
         lines.append("5 0 | " + " ; ".join(" ".join(map(str, o)) for o in ops))
+    # consuming calls on objects and groups that hold the LAST reference of their (probed) context, for every assignment of the three roles
+    # (creating the context and the object, dropping the caller's handle, making the consuming call) to the two modules
+    fixed = []
+    for a in (0, 1):
+        for b in (0, 1):
+            for c in (0, 1):
+                fixed.append([[31, a], [2, b, 7, 0], [17, c, 0], [3, a, 1], [5, c, 1]])
+                fixed.append([[31, a], [6, b, 9, 0, 3], [17, c, 0], [5, a, 1]])
+                fixed.append([[31, a], [2, b, 5, 0], [2, a, 6, 0], [17, b, 0], [5, c, 1], [4, c, 2, 3], [5, b, 2]])
+    lines = ["5 0 | " + " ; ".join(" ".join(map(str, o)) for o in ops) for ops in fixed] + lines
+    dist["last_reference_consuming_histories"] = len(fixed)
     return lines, dist
 
 
